@@ -39,6 +39,10 @@ func DistanceToHaversine(meters float64) float64 {
 }
 
 func DistanceFromHaversine(haversine float64) float64 {
+	if haversine > 1 {
+		// rounding can push the haversine of antipodal points above one
+		haversine = 1
+	}
 	return earthRadius * 2 * math.Asin(math.Sqrt(haversine))
 }
 
